@@ -614,6 +614,34 @@ pub fn handle_xreadgroup(storage: &Arc<StorageEngine>, db: usize, parts: &[RespF
     let num_keys = remaining / 2;
     let mut results = Vec::new();
     
+    // Validate every (stream, group, ID) before delivering anything: a command that ends in an
+    // error must not already have moved entries of the streams named before the failing one
+    // into the pending list (they would never be delivered under ">" again)
+    for j in 0..num_keys {
+        let key = match &parts[i + j] {
+            RespFrame::BulkString(Some(bytes)) => bytes.as_ref(),
+            _ => return Ok(RespFrame::error("ERR invalid key format")),
+        };
+        
+        let id_str = match &parts[i + num_keys + j] {
+            RespFrame::BulkString(Some(bytes)) => String::from_utf8_lossy(bytes),
+            _ => return Ok(RespFrame::error("ERR invalid ID format")),
+        };
+        
+        match storage.get(db, key)? {
+            GetResult::Found(Value::Stream(stream)) => {
+                if id_str != ">" && id_str != "0" && StreamId::from_string(&id_str).is_none() {
+                    return Ok(RespFrame::error("ERR Invalid stream ID specified"));
+                }
+                if stream.get_consumer_group(&group_name).is_none() {
+                    return Ok(RespFrame::error(format!("NOGROUP No such consumer group {} for stream", group_name)));
+                }
+            }
+            GetResult::Found(_) => return Ok(RespFrame::error("WRONGTYPE Operation against a key holding the wrong kind of value")),
+            _ => {} // Non-existent keys are skipped
+        }
+    }
+    
     for j in 0..num_keys {
         let key = match &parts[i + j] {
             RespFrame::BulkString(Some(bytes)) => bytes.as_ref(),
